@@ -169,6 +169,14 @@ def nesting_rule(repo: Repo, rep: Report, rid: str) -> None:
     rep.check(len(mk) == 1 and norm(mk[0].args[0]) == "type_" and any(isinstance(s, ast.Assign) and norm(s.targets[0]) == "type_" and s.value is mk[0] for s in ast.walk(lp)),
               rid, f"{fi.key}:wrap", "type_ = _make_array(type_, count)", "the dimension loop does not wrap the running type", fi.loc(lp))
     ma = repo.func("cstruct.py", "cstruct._make_array")
+    from ..folds import fold_make_array
+
+    fold = fold_make_array(repo)
+    if fold is not None:
+        bad = fold["nt_bad"] + fold["name_bad"]
+        rep.check(not bad, rid, f"{ma.key}:null-terminated", f"folded over {fold['cases']} cases: null_terminated iff the count is absent (x[]), and the name says so",
+                  f"_make_array no longer marks x[] as null-terminated: {bad[:1]}", ma.loc())
+        return
     g2 = [x for x in walk_body(ma.node.body) if isinstance(x, ast.If) and "num_entries is None" in norm(x.test)]
     rep.check(bool(g2) and any("null_terminated = True" in norm(s) for s in g2[0].body), rid, f"{ma.key}:null-terminated", "x[] -> null_terminated",
               "_make_array no longer marks x[] as null-terminated", ma.loc())
